@@ -385,6 +385,15 @@ def _metadata_checksums(ctx: Ctx, q: bool) -> int:
             from sedpack.io.dataset_filler import DatasetFiller
             with DatasetFiller(ds, relative_path_from_split=Path("s")) as f:
                 f.write_example(values=dsreal.example(9), split="train")
+            with DatasetFiller(ds, relative_path_from_split=Path("t")) as f:
+                f.write_example(values=dsreal.example(10), split="train")
+            # continued writing into "s" whose result never reaches write_config (auto_update_dataset=False, result
+            # dropped), then an ordinary session into the sibling "t": the merge must re-hash what it records
+            dropped = DatasetFiller(ds, relative_path_from_split=Path("s"), auto_update_dataset=False)
+            with dropped as f:
+                f.write_example(values=dsreal.example(11), split="train")
+            with DatasetFiller(ds, relative_path_from_split=Path("t")) as f:
+                f.write_example(values=dsreal.example(12), split="train")
             returned = ds.write_config(updated_infos=[]).hash_checksums
             current = ds.current_metadata_checksums()
             cache = {}
